@@ -9,7 +9,10 @@ T-corr: the REAL command-line entry pandora.main, in process, on small synthetic
         (1) Model/Save.v run on the in-memory products that main handed to save_results against
             every GeoTIFF read back (paths, dtype, band count, descriptions, every sample);
         (2) Model/SavedCfg.v main_saved against cfg/config.json (json.load, key order included);
-        (3) Model/SavedCfg.v full_check on the saved configuration against the real check_conf.
+        (3) Model/SavedCfg.v full_check on the saved configuration against the real check_conf;
+        (4) Model/JsonText.v print / parse against json.dumps / json.loads (generated values of the subset, malformed
+            neighbours, the text of the user file and of cfg/config.json of every case) and Model/SavedFile.v main_file
+            (text of the user file -> text of cfg/config.json -> the same text).
 Spec  : independent Python oracle of the property sentence on the same runs: file set (right_*
         iff a validation step), float32 / uint16, one band per indicator named after it, samples
         equal to the in-memory products (NaN-aware) and to the products of an independent
@@ -38,7 +41,11 @@ RULE = ("each case = one configuration file run through pandora.main, an indepen
         "matching cost sad/ssd/census/zncc, optional cbca, 0..3 confidence steps (suffixed names), invalid_disparity "
         "in {default, -5, 'NaN', nan}, optional refinement / filter / validation (+ interpolation, suffixed) / "
         "trailing filter / multiscale.  A case is non-trivial when main accepted the configuration and wrote files; "
-        "distinct by (pipeline step names and methods, interval kind, bands, invalid_disparity)")
+        "distinct by (pipeline step names and methods, interval kind, bands, invalid_disparity).  Separate stream for the JSON "
+        "text (not counted as cases; counters json_*): random configuration-like values of the JSON subset (depth <= 4, ints up "
+        "to 1e20, floats whose repr has no exponent, NaN / inf, strings of printable ASCII without quote / backslash), "
+        "json.dumps compact and indent=2 against the model's print, json.loads against the model's parse, and two malformed "
+        "neighbours (a character deleted / inserted / doubled, or truncation) on which json.loads and the model's parser must agree")
 ASSUMES = [
     "GeoTIFF encoding / decoding by rasterio + GDAL is outside the model: 'write then read returns the array, dtype, "
     "descriptions, crs, transform' is sampled on every file of every case, not proved",
@@ -46,7 +53,10 @@ ASSUMES = [
     "representable value is returned unchanged by the float32 cast) as an explicit hypothesis and the bound "
     "flags < 4096 (C04) for the uint16 cast; the harness checks on every run that the in-memory arrays already "
     "have the dtype of the file",
-    "json.dump / json.load are Python's: NaN is written as the token NaN (accepted by json.load, not RFC 8259)",
+    "json.dump / json.load are modelled by Model/JsonText.v (printer / parser of the JSON subset: no escape sequence, no "
+    "exponent, ASCII, NaN / Infinity tokens as Python writes them); the model is compared with json.dumps / json.loads on "
+    "generated values, on malformed neighbours of their texts, and on the two files of every case; a text with a key twice "
+    "(json.loads keeps the last value) is outside the subset",
     "file-system facts (a path opens, sizes, band names) are oracles of the configuration model; the harness only "
     "writes consistent inputs",
     "a value loaded by json.load is a Python dict: keys are unique at every level (hypothesis `nodup` of the "
@@ -132,7 +142,7 @@ def gen_case(rng, idx, quick):
 
 
 CORPUS = [
-    # D8 witness: the simplest integer-interval run (before fix e0eac6a its saved configuration was refused)
+    # D8 witness: the simplest integer-interval run (before fix e44909e its saved configuration was refused)
     {"idx": -1, "seed": 11, "rows": 8, "cols": 12, "bands": None, "georef": False, "mask": False, "nodata": None,
      "interval": "list", "disp": [-2, 2],
      "pipeline": {"matching_cost": {"matching_cost_method": "sad", "window_size": 3},
@@ -471,6 +481,22 @@ def run_case(ctx, model, case):
         except Exception as exc:  # pylint: disable=broad-except
             ctx.violation("config_not_loadable", f"cfg/config.json: {type(exc).__name__}: {exc}", rp)
             return
+        # ---- correspondence (4): the JSON TEXT of the user file and of cfg/config.json against Model/JsonText.v,
+        #      and the model of main at the level of the files (json.load, check_conf, run, json.dump)
+        with open(cpath) as f:
+            saved_text = f.read()
+        with open(cfg_path) as f:
+            user_text = f.read()
+        try:
+            check_json_text(ctx, model, saved, "cfg/config.json")
+            if strip_ws_outside_strings(saved_text) != json.dumps(saved, separators=(",", ":")):
+                ctx.mismatch("json_file_text", rp, saved_text[:300], "json.dumps of the loaded value differs from the file up to white space")
+            got_p = model.call(8, jw.wire_str(saved_text))
+            if got_p != [1, jw.to_wire(saved)]:
+                ctx.mismatch("json_parse_saved_file", rp, jw.show(saved), jw.show(jw.from_wire(got_p[1])) if got_p and got_p[0] == 1 else "model rejects")
+        except jw.NotJson as exc:
+            ctx.count("json_text_not_ascii")
+            saved_text = None
         if saved.get("margins") != margins0:
             ctx.violation("margins_not_saved", f"saved margins {saved.get('margins')}, machine margins {margins0}", rp)
         want_cfg = copy.deepcopy(checked)
@@ -507,6 +533,17 @@ def run_case(ctx, model, case):
         if m2 != [1, jw.to_wire(saved)]:
             ctx.mismatch("main_saved", rp, jw.show(saved), jw.show(jw.from_wire(m2[1])) if m2 and m2[0] == 1 else "model rejects")
         ctx.traces += 1
+        if saved_text is not None:
+            # main_file: user text -> saved text, and saved text -> the same text (C19_saved_file_replays)
+            f1, f2 = model.batch([(11, [jw.wire_str(user_text)] + common_args + [jw.to_wire(margins0)]),
+                                  (11, [jw.wire_str(saved_text)] + common_args + [jw.to_wire(margins0)])])
+            want_text = strip_ws_outside_strings(saved_text)
+            for tag, res in (("main_file(user file)", f1), ("main_file(saved file)", f2)):
+                txt = "".join(chr(c) for c in res[1]) if res and res[0] == 1 else None
+                if txt != want_text:
+                    ctx.mismatch("main_file", rp, want_text[:400], f"{tag}: " + (txt[:400] if txt else "model rejects"))
+            ctx.traces += 1
+            ctx.count("main_file_texts_compared", 2)
         try:
             re_checked = cc.check_conf(copy.deepcopy(saved), PandoraMachine())
             impl3 = [1, jw.to_wire(re_checked)]
@@ -559,8 +596,154 @@ def run_case(ctx, model, case):
         shutil.rmtree(d, ignore_errors=True)
 
 
+# ------------------------------------------------------------------------------------------- JSON text
+
+STR_CHARS = [chr(c) for c in range(32, 127) if chr(c) not in '"\\']
+
+
+def gen_float(rng):
+    """a finite float whose repr() uses no exponent (the subset of Model/JsonText.v)"""
+    while True:
+        k = rng.choice([0, 1, 1, 2, 2, 3, 6])
+        f = round(rng.choice([-1, 1]) * rng.random() * 10 ** rng.choice([0, 0, 1, 3]), k)
+        r = repr(f)
+        if "e" not in r and "E" not in r and r not in ("-0.0",):
+            return f
+
+
+def gen_str(rng, path=False):
+    if path:
+        return "/tmp/" + "".join(rng.choice("abcxyz_-.0123456789") for _ in range(rng.randrange(1, 9))) + ".tif"
+    return "".join(rng.choice(STR_CHARS) for _ in range(rng.randrange(0, 9)))
+
+
+def gen_json(rng, depth):
+    """a configuration-like JSON value of the subset"""
+    r = rng.random()
+    if depth <= 0 or r < 0.45:
+        kind = rng.choice(["int", "int", "float", "float", "str", "str", "path", "null", "true", "false", "nan", "inf", "-inf"])
+        if kind == "int":
+            return rng.choice([0, 1, -1, 5, -9999, rng.randrange(-10 ** 6, 10 ** 6), rng.randrange(-10 ** 20, 10 ** 20)])
+        if kind == "float":
+            return gen_float(rng)
+        if kind == "str":
+            return rng.choice(["", "NaN", "sad", "wta", gen_str(rng)])
+        if kind == "path":
+            return gen_str(rng, True)
+        return {"null": None, "true": True, "false": False, "nan": float("nan"), "inf": float("inf"), "-inf": float("-inf")}[kind]
+    if r < 0.6:
+        return [gen_json(rng, depth - 1) for _ in range(rng.randrange(0, 4))]
+    d = {}
+    for _ in range(rng.randrange(0, 5)):
+        d[rng.choice(["input", "left", "right", "disp", "pipeline", "matching_cost.x", "indicator", gen_str(rng)])] = gen_json(rng, depth - 1)
+    return d
+
+
+def strip_ws_outside_strings(text):
+    out, in_str = [], False
+    for ch in text:
+        if ch == '"':
+            in_str = not in_str          # the subset has no escaped quote
+        if in_str or ch not in " \t\r\n":
+            out.append(ch)
+    return "".join(out)
+
+
+def model_parse(model, text):
+    res = model.call(8, jw.wire_str(text))
+    return res
+
+
+def check_json_text(ctx, model, v, where):
+    """json.dumps == model print (exactly for the compact form, up to white space for indent=2),
+    json.loads == model parse, the value is in the subset"""
+    compact = json.dumps(v, separators=(",", ":"))
+    pretty = json.dumps(v, indent=2)
+    wv = jw.to_wire(v)
+    pr, ok, p1, p2 = model.batch([(9, wv), (10, wv), (8, jw.wire_str(pretty)), (8, jw.wire_str(compact))])
+    ctx.traces += 1
+    printed = "".join(chr(c) for c in pr)
+    rp = {"json_value": jw.show(v), "where": where}
+    if ok != 1:
+        ctx.mismatch("json_printable", rp, "a value json.dumps writes without escape / exponent", "printable = false")
+        return
+    if printed != compact or strip_ws_outside_strings(pretty) != printed:
+        ctx.mismatch("json_print", rp, compact, printed)
+    for got, text in ((p1, pretty), (p2, compact)):
+        back = json.loads(text)
+        if got != [1, jw.to_wire(back)] or jw.to_wire(back) != wv:
+            ctx.mismatch("json_parse", rp, jw.show(back), jw.show(jw.from_wire(got[1])) if got and got[0] == 1 else "model rejects")
+    ctx.count("json_texts_compared")
+
+
+def malformed(rng, text):
+    i = rng.randrange(len(text)) if text else 0
+    kind = rng.choice(["del", "ins", "trunc", "dup"])
+    if kind == "del":
+        return text[:i] + text[i + 1:]
+    if kind == "ins":
+        return text[:i] + rng.choice(',:]}[{"0-.ean ') + text[i:]
+    if kind == "dup":
+        return text[:i] + text[i:i + 1] + text[i:]
+    return text[:i]
+
+
+def out_of_subset(text):
+    """texts json.loads takes but the model's subset does not: escapes, exponents, a key twice (json.loads keeps the
+    last value, the model's association list both)"""
+    import re
+    if "\\" in text:
+        return True
+    outside = re.sub(r'"[^"]*"', '""', text)
+    if re.search(r"\d[eE][+-]?\d", outside):
+        return True
+    dup = []
+
+    def hook(pairs):
+        keys = [k for k, _ in pairs]
+        if len(set(keys)) != len(keys):
+            dup.append(1)
+        return dict(pairs)
+    try:
+        json.loads(text, object_pairs_hook=hook)
+    except Exception:  # pylint: disable=broad-except
+        return False
+    return bool(dup)
+
+
+def json_stream(ctx, model, n):
+    for i in range(n):
+        v = gen_json(ctx.rng, 4)
+        if not isinstance(v, (dict, list)) and ctx.rng.random() < 0.5:
+            v = {"k": v}
+        check_json_text(ctx, model, v, "generated")
+        # malformed neighbours: json.loads and the model's parser must agree (both refuse, or both the same value)
+        text = json.dumps(v, indent=ctx.rng.choice([None, 2]))
+        for _ in range(2):
+            bad = malformed(ctx.rng, text)
+            try:
+                py = [1, jw.to_wire(json.loads(bad))]
+            except Exception:  # pylint: disable=broad-except
+                py = [0]
+            got = model.call(8, jw.wire_str(bad)) if all(1 <= ord(c) <= 126 or c in "\t\r\n" for c in bad) else None
+            if got is None:
+                continue
+            ctx.traces += 1
+            if got and got[0] == 1:
+                # a decimal with more digits than a double holds: the model keeps the exact rational, JFloat q stands for
+                # the double nearest to q (harness/jsonwire.py) -> round the model's value as float() does
+                got = [1, jw.to_wire(jw.from_wire(got[1]))]
+            if got != py:
+                if py[0] == 1 and got == [0] and out_of_subset(bad):
+                    ctx.count("json_malformed_outside_subset")
+                    continue
+                ctx.mismatch("json_parse_malformed", {"text": bad}, "json.loads: " + ("refuses" if py == [0] else repr(jw.show(jw.from_wire(py[1])))),
+                             "model: " + ("refuses" if got == [0] else repr(jw.show(jw.from_wire(got[1])))))
+            ctx.count("json_malformed_refused_by_both" if py == [0] else "json_malformed_still_valid")
+
+
 def d8_regression(ctx, model):
-    """the regression witness of D8 on the model of the code BEFORE fix e0eac6a: the configuration main used to save
+    """the regression witness of D8 on the model of the code BEFORE fix e44909e: the configuration main used to save
     is refused by the (unchanged) input check"""
     user = {"input": {"left": {"img": "/x/left.tif", "disp": [-2, 2]}, "right": {"img": "/x/right.tif"}},
             "pipeline": {"matching_cost": {"matching_cost_method": "sad"}, "disparity": {"disparity_method": "wta"}}}
@@ -584,6 +767,7 @@ def run(ctx):
         run_case(ctx, model, replay)
         return
     d8_regression(ctx, model)
+    json_stream(ctx, model, 120 if quick else 1500)
     for case in CORPUS:
         run_case(ctx, model, copy.deepcopy(case))
     n = 26 if quick else 220
@@ -594,6 +778,12 @@ def run(ctx):
         "documented ones up to order, the six products go to the root of the output directory (vm_compute, Props/C19.v)",
         "cfg_path_ok otd = true: config.json goes to ./cfg (vm_compute)",
         "classes_wf classes = true (vm_compute): the prologues of the regenerated step classes allow C05's idempotence",
+        "confidence_wf classes = true (vm_compute): in every regenerated class of the cost_volume_confidence kind `indicator` is "
+        "not the method key, no prologue operation tests or converts it, the schema requires it and takes any string",
+        "classes_scalar classes = true (vm_compute): no schema entry of a regenerated step class accepts a dictionary, every "
+        "default written by a prologue is a scalar that update_conf leaves alone",
+        "defs_wf gen_defs = true (vm_compute): the regenerated default input section is {input: {left: scalars, right: scalars}} "
+        "and no entry of the six input schemas check_input_section can build accepts a dictionary",
     ]
     ctx.notes.append("observation O3: cost_volume_confidence_run overwrites the (undocumented) `indicator` key of its step with "
                      "the suffix of the step name, so cfg/config.json holds the configuration as run, not check_conf's output "
